@@ -75,9 +75,10 @@ type gen struct {
 	steps    int
 	bias     string
 	cfg      map[string]string
-	cfgPAR   bool // PAR enforced in this history
-	lateFrom int  // step from which faults, interleaved pairs and odd spellings may appear under every bias
-	tx       bool // the store is transactional in this history
+	cfgPAR   bool   // PAR enforced in this history
+	mode     string // "plain" | "faulty" | "concurrent" (see History)
+	lateFrom int    // step from which faults / interleaved pairs may appear
+	tx       bool   // the store is transactional in this history
 }
 
 var (
@@ -114,24 +115,15 @@ func (g *gen) op(line string) string {
 	// then carries an unusual grant_type spelling.  From the first such operation on the history is judged by the
 	// correspondence only (the bookkeeping monitors assume fault-free, sequential histories).
 	if g.lateFrom > 0 && g.steps >= g.lateFrom && isEndpointOp(line) && g.bias != "C19" {
-		rate := 3
-		if g.bias == "C20" {
-			rate = 10 // what the client is shown of a storage error is C20's subject
+		rate := 0
+		if g.mode == "faulty" {
+			rate = 8
 		}
 		switch x := r.Intn(40); {
 		case x < rate:
-			plan := fmt.Sprintf(",%d:%s", r.Intn(10), faultKinds[r.Intn(len(faultKinds))])
-			if r.Intn(3) == 0 {
-				plan += fmt.Sprintf(",%d:%s", r.Intn(12), faultKinds[r.Intn(len(faultKinds))])
-			}
-			g.e.Do("fault\t" + plan)
-			obs := g.e.Do(line)
-			g.steps++
-			if strings.HasPrefix(obs, "err ") && r.Intn(3) != 0 {
-				obs = g.e.Do(line) // the fault-free retry
-				g.steps++
-			}
-			return obs
+			// the C18 shapes: a sweep of single faults over the request's storage calls (every call site of the
+			// flow on one state), or one or two random faults followed by a fault-free retry
+			return g.faultyOp(line)
 		}
 	}
 	if isTokenOp(line) && r.Intn(30) == 0 {
@@ -235,7 +227,12 @@ func (g *gen) faultyOp(line string) string {
 		}
 		return do(line)
 	case x < 7:
-		plan := fmt.Sprintf(",%d:%s", r.Intn(12), faultKinds[r.Intn(len(faultKinds))])
+		// (most flows make fewer than eight storage calls: the index is mostly a small one)
+		at := r.Intn(7)
+		if r.Intn(4) == 0 {
+			at = r.Intn(14)
+		}
+		plan := fmt.Sprintf(",%d:%s", at, faultKinds[r.Intn(len(faultKinds))])
 		if r.Intn(3) == 0 {
 			plan += fmt.Sprintf(",%d:%s", r.Intn(14), faultKinds[r.Intn(len(faultKinds))])
 		}
@@ -625,6 +622,9 @@ func (g *gen) ownerOf(tok string) string {
 func (g *gen) revoke() {
 	r := g.r
 	tok := g.anyToken()
+	if r.Intn(3) != 0 {
+		tok = g.recentToken() // mostly a token that is still alive: the revocation has something to do
+	}
 	if (g.bias == "C08" || g.bias == "C09") && r.Intn(2) == 0 {
 		// prefer the access token a hybrid flow handed out at the authorization endpoint
 		var cands []string
@@ -1040,9 +1040,23 @@ func (g *gen) parStep() {
 func (g *gen) History(n int) {
 	g.setup()
 	r := g.r
-	g.lateFrom = n*6/10 + r.Intn(n*3/10+1)
-	if g.bias == "C20" {
-		g.lateFrom = n / 5 // (the taint and leak scans do not depend on fault-free bookkeeping)
+	// Three kinds of history under every bias but C18 / C19 (which have their own): plain (the bookkeeping
+	// monitors judge it to the end), faulty (from a fifth of its length on, endpoint operations meet storage
+	// faults in the C18 shapes) and concurrent (from a fifth on, interleaved pairs).  From the first fault or
+	// pair on a history is judged by the correspondence (and the taint / leak scans) only.
+	g.mode, g.lateFrom = "plain", n+1
+	if g.bias != "C18" && g.bias != "C19" {
+		x := r.Intn(20)
+		faultyShare := 5
+		if g.bias == "C20" {
+			faultyShare = 10 // what the client is shown of a storage error is C20's subject
+		}
+		switch {
+		case x < faultyShare:
+			g.mode, g.lateFrom = "faulty", n/5
+		case x < faultyShare+3 && !g.tx:
+			g.mode, g.lateFrom = "concurrent", n/5
+		}
 	}
 	for g.steps < n {
 		var pending, live []*gGrant
@@ -1065,13 +1079,12 @@ func (g *gen) History(n int) {
 			g.concurrent()
 			continue
 		}
-		parRate := 22
-		switch g.bias {
-		case "C01", "C04", "C08", "C16", "C17": // the once-only properties see more interleaved pairs
-			parRate = 8
-		}
-		if g.bias != "C19" && g.bias != "C18" && !g.tx && g.steps >= g.lateFrom && r.Intn(parRate) == 0 {
+		if g.mode == "concurrent" && g.steps >= g.lateFrom && r.Intn(6) == 0 {
 			g.concurrent() // every property's histories end with the occasional pair of interleaved requests
+			continue
+		}
+		if g.bias == "C08" && r.Intn(5) == 0 && len(g.tokens) > 0 {
+			g.revoke() // C08 bias: revocations (mostly of live tokens) get a larger share
 			continue
 		}
 		if g.bias == "C18" && r.Intn(5) == 0 {
